@@ -193,7 +193,17 @@ func memberCall(p *core.Program, f *core.Func, c *ast.CallExpr) (set, elem ast.E
 // plus, for a local `x := &T{...}`, the field-by-field assignments `x.f = v` of the body.
 // ok is false when the returned value is not such a fresh literal or a field is assigned twice.
 func structInits(info *types.Info, body *ast.BlockStmt, result ast.Expr) (map[*types.Var]ast.Expr, bool) {
+	out, _, ok := structInitsEx(info, body, result)
+	return out, ok
+}
+
+// structInitsEx also looks into the literals of struct-typed (embedded) parts - their fields are reported like the
+// outer ones - and reports, for a part that is copied as a whole from another value (`pkgScope: other.pkgScope`), each
+// of the part's fields in `copies` with the expression the part is copied from.
+func structInitsEx(info *types.Info, body *ast.BlockStmt, result ast.Expr) (map[*types.Var]ast.Expr, map[*types.Var]ast.Expr, bool) {
 	out := map[*types.Var]ast.Expr{}
+	copies := map[*types.Var]ast.Expr{}
+	fail := func() (map[*types.Var]ast.Expr, map[*types.Var]ast.Expr, bool) { return nil, nil, false }
 	holder := core.VarOf(info, result)
 	e, _ := core.Resolve(info, body, result)
 	e = ast.Unparen(e)
@@ -205,21 +215,47 @@ func structInits(info *types.Info, body *ast.BlockStmt, result ast.Expr) (map[*t
 		if c, isCall := e.(*ast.CallExpr); isCall && core.CalleeName(info, c) == "builtin.new" {
 			cl = &ast.CompositeLit{}
 		} else {
-			return nil, false
+			return fail()
 		}
 	}
-	for _, el := range cl.Elts {
-		kv, ok := el.(*ast.KeyValueExpr)
-		if !ok {
-			return nil, false // positional literal
-		}
-		id, _ := kv.Key.(*ast.Ident)
-		if id == nil {
-			return nil, false
-		}
-		if fld, ok := info.ObjectOf(id).(*types.Var); ok && fld.IsField() {
+	var collect func(cl *ast.CompositeLit, depth int) bool
+	collect = func(cl *ast.CompositeLit, depth int) bool {
+		for _, el := range cl.Elts {
+			kv, ok := el.(*ast.KeyValueExpr)
+			if !ok {
+				return false // positional literal
+			}
+			id, _ := kv.Key.(*ast.Ident)
+			if id == nil {
+				return false
+			}
+			fld, ok := info.ObjectOf(id).(*types.Var)
+			if !ok || !fld.IsField() {
+				continue
+			}
 			out[fld] = kv.Value
+			// a struct-typed part held by value
+			st, isStruct := fld.Type().Underlying().(*types.Struct)
+			if !isStruct || depth > 3 {
+				continue
+			}
+			if _, isNamed := types.Unalias(fld.Type()).(*types.Named); !isNamed {
+				continue
+			}
+			if inner, isLit := ast.Unparen(kv.Value).(*ast.CompositeLit); isLit {
+				if !collect(inner, depth+1) {
+					return false
+				}
+				continue
+			}
+			for i := 0; i < st.NumFields(); i++ {
+				copies[st.Field(i)] = kv.Value
+			}
 		}
+		return true
+	}
+	if !collect(cl, 0) {
+		return fail()
 	}
 	if holder != nil {
 		good := true
@@ -246,8 +282,8 @@ func structInits(info *types.Info, body *ast.BlockStmt, result ast.Expr) (map[*t
 			return true
 		})
 		if !good {
-			return nil, false
+			return fail()
 		}
 	}
-	return out, true
+	return out, copies, true
 }
